@@ -11,6 +11,7 @@
 From Coq Require Import List NArith Bool Permutation.
 From Coq Require Import String.
 From ELA Require Import lib.Bytes lib.C23_codec model.C23_KeyFrame proof.C23_codec.
+From ELA Require Import lib.C23_codec2 model.C23_Checkpoints proof.C23_checkpoints.
 From ELA Require Import model.C23_Fields gen.C23_fields proof.C23_fields.
 Import ListNotations.
 Local Open Scope N_scope.
@@ -158,3 +159,154 @@ Example C23_nonvacuous :
   dec dpos_state_key_frame (enc dpos_state_key_frame ex_skf) = Some (ex_skf, []) /\
   (300 <? N.of_nat (List.length (enc dpos_state_key_frame ex_skf))) = true.
 Proof. exact (conj ex_skf_wf ex_skf_roundtrip). Qed.
+
+(* ======================================================================
+   Checkpoint envelopes (model/C23_Checkpoints.v) *)
+
+(* dpos/state.CheckPoint: all 23 serialized fields, the five ArbiterMember
+   lists and three ArbiterMember maps (origin / dpos / crc arbiters behind
+   their type byte), rewards, the key frame *)
+Theorem C23_dpos_checkpoint_lossless : forall x wire rest,
+  wf dpos_checkpoint x -> encs dpos_checkpoint x wire ->
+  dec dpos_checkpoint (wire ++ rest) = Some (x, rest).
+Proof. exact (roundtrip_any_order dpos_checkpoint dpos_checkpoint_ok). Qed.
+Print Assumptions C23_dpos_checkpoint_lossless.
+
+Theorem C23_dpos_arbiter_lossless : forall x wire rest,
+  wf arbiter x -> encs arbiter x wire -> dec arbiter (wire ++ rest) = Some (x, rest).
+Proof. exact (roundtrip_any_order arbiter arbiter_ok). Qed.
+Print Assumptions C23_dpos_arbiter_lossless.
+
+(* cr/state: ProposalState (with payload.CRCProposalInfo), ProposalKeyFrame,
+   and the whole Checkpoint (Height, KeyFrame, StateKeyFrame, ProposalKeyFrame) *)
+Theorem C23_cr_proposal_state_lossless : forall x wire rest,
+  wf proposal_state x -> encs proposal_state x wire -> dec proposal_state (wire ++ rest) = Some (x, rest).
+Proof. exact (roundtrip_any_order proposal_state proposal_state_ok). Qed.
+Print Assumptions C23_cr_proposal_state_lossless.
+
+Theorem C23_cr_proposal_key_frame_lossless : forall x wire rest,
+  wf proposal_key_frame x -> encs proposal_key_frame x wire ->
+  dec proposal_key_frame (wire ++ rest) = Some (x, rest).
+Proof. exact (roundtrip_any_order proposal_key_frame proposal_key_frame_ok). Qed.
+Print Assumptions C23_cr_proposal_key_frame_lossless.
+
+Theorem C23_cr_checkpoint_lossless : forall x wire rest,
+  wf cr_checkpoint x -> encs cr_checkpoint x wire -> dec cr_checkpoint (wire ++ rest) = Some (x, rest).
+Proof. exact (roundtrip_any_order cr_checkpoint cr_checkpoint_ok). Qed.
+Print Assumptions C23_cr_checkpoint_lossless.
+
+(* mempool: the WIRE FORMAT of txPoolCheckpoint (height, txnList, txFees) is
+   lossless for every lawful transaction codec ... *)
+Theorem C23_txpool_wire_lossless : forall (T : Type) (ctx : codec T), codec_ok ctx ->
+  forall x wire rest,
+  wf (txpool_checkpoint ctx) x -> encs (txpool_checkpoint ctx) x wire ->
+  dec (txpool_checkpoint ctx) (wire ++ rest) = Some (x, rest).
+Proof. exact (fun T ctx H => roundtrip_any_order (txpool_checkpoint ctx) (txpool_checkpoint_ok ctx H)). Qed.
+Print Assumptions C23_txpool_wire_lossless.
+
+(* ... but the Go Deserialize does not follow it (recorded defect
+   mempool:Snapshot:txnList): a checkpoint holding a transaction comes back
+   without it; with an empty txnList it is exact *)
+Theorem C23_txpool_deserialize_refuted : forall (T : Type) (ctx : codec T), codec_ok ctx ->
+  forall h k tx fees wire,
+  wf (txpool_checkpoint ctx) (h, ([(k, tx)], fees)) -> encs (txpool_checkpoint ctx) (h, ([(k, tx)], fees)) wire ->
+  txpool_deserialize_go ctx wire = Some ((h, ([], fees)), []) /\
+  txpool_deserialize_go ctx wire <> Some ((h, ([(k, tx)], fees)), []).
+Proof. exact (@txpool_go_refuted). Qed.
+Print Assumptions C23_txpool_deserialize_refuted.
+
+Theorem C23_txpool_deserialize_partial : forall (T : Type) (ctx : codec T), codec_ok ctx ->
+  forall h fees wire rest,
+  wf (txpool_checkpoint ctx) (h, ([], fees)) -> encs (txpool_checkpoint ctx) (h, ([], fees)) wire ->
+  txpool_deserialize_go ctx (wire ++ rest) = Some ((h, ([], fees)), rest).
+Proof. exact (@txpool_go_partial). Qed.
+Print Assumptions C23_txpool_deserialize_partial.
+
+(* wallet.CoinsCheckPoint (uint32 counts, OutPoint keys, version-dependent
+   Output layout), for every family of lawful output-payload codecs *)
+Theorem C23_wallet_checkpoint_lossless : forall (P : Type) (pl : N -> codec P), (forall t, codec_ok (pl t)) ->
+  forall x wire rest,
+  wf (wallet_checkpoint pl) x -> encs (wallet_checkpoint pl) x wire ->
+  dec (wallet_checkpoint pl) (wire ++ rest) = Some (x, rest).
+Proof. exact (fun P pl H => roundtrip_any_order (wallet_checkpoint pl) (wallet_checkpoint_ok pl H)). Qed.
+Print Assumptions C23_wallet_checkpoint_lossless.
+
+(* ======================================================================
+   Restore into a live, NON-EMPTY instance.  [deci r live wire] is Deserialize
+   as a method on a receiver that already holds [live] (Manager.Restore
+   deserialises into the registered checkpoint; ProposalKeyFrame.Snapshot into
+   NewProposalKeyFrame()). *)
+
+(* whatever the receiver held, the DPoS / CR checkpoint decoders REPLACE it *)
+Theorem C23_dpos_restore_into_any_receiver : forall live x wire rest,
+  wf dpos_checkpoint x -> encs dpos_checkpoint x wire ->
+  deci r_dpos_checkpoint live (wire ++ rest) = Some (x, rest).
+Proof. exact dpos_restore_into_any. Qed.
+Print Assumptions C23_dpos_restore_into_any_receiver.
+
+Theorem C23_cr_restore_into_any_receiver : forall live x wire rest,
+  wf cr_checkpoint x -> encs cr_checkpoint x wire ->
+  deci r_cr_checkpoint live (wire ++ rest) = Some (x, rest).
+Proof. exact cr_restore_into_any. Qed.
+Print Assumptions C23_cr_restore_into_any_receiver.
+
+(* history clause for the real composition: for every step function, every
+   state [live] the node holds when the checkpoint is loaded into it *)
+Theorem C23_dpos_restore_into_live_then_continue :
+  forall (B : Type) (step : _ -> B -> _) live s0 b1 b2 wire,
+  wf dpos_checkpoint (run step s0 b1) -> encs dpos_checkpoint (run step s0 b1) wire ->
+  option_map (fun s => run step s b2) (restore_live r_dpos_checkpoint live wire) = Some (run step s0 (b1 ++ b2)).
+Proof. exact (fun B => @restore_into_then_continue _ B r_dpos_checkpoint r_dpos_checkpoint_replaces dpos_checkpoint_ok). Qed.
+Print Assumptions C23_dpos_restore_into_live_then_continue.
+
+Theorem C23_cr_restore_into_live_then_continue :
+  forall (B : Type) (step : _ -> B -> _) live s0 b1 b2 wire,
+  wf cr_checkpoint (run step s0 b1) -> encs cr_checkpoint (run step s0 b1) wire ->
+  option_map (fun s => run step s b2) (restore_live r_cr_checkpoint live wire) = Some (run step s0 (b1 ++ b2)).
+Proof. exact (fun B => @restore_into_then_continue _ B r_cr_checkpoint r_cr_checkpoint_replaces cr_checkpoint_ok). Qed.
+Print Assumptions C23_cr_restore_into_live_then_continue.
+
+(* the statement discriminates: a list reader that appends to what the
+   receiver holds (the seeded variant) turns ["ID"] + wire ["ID";"ESC"] into
+   ["ID";"ID";"ESC"] and is not receiver independent *)
+Theorem C23_appending_reader_refuted :
+  deci r_strings_appending [[73; 68]] names_wire = Some ([[73; 68]; [73; 68]; [69; 83; 67]], []) /\
+  dec strings names_wire = Some ([[73; 68]; [69; 83; 67]], []) /\
+  ~ replaces r_strings_appending.
+Proof. exact appending_reader_refuted. Qed.
+Print Assumptions C23_appending_reader_refuted.
+
+(* wallet: CoinsCheckPoint.Deserialize merges into the receiver's maps.  Exact
+   into an empty checkpoint (NewCoinCheckPoint(): start-up Restore, Snapshot,
+   Generator - every path the node uses) ... *)
+Theorem C23_wallet_restore_into_empty_partial : forall (P : Type) (pl : N -> codec P), (forall t, codec_ok (pl t)) ->
+  forall h0 x wire rest,
+  wf (wallet_checkpoint pl) x -> encs (wallet_checkpoint pl) x wire ->
+  deci (r_wallet_checkpoint pl) (h0, ([], [])) (wire ++ rest) = Some (x, rest).
+Proof. exact (@wallet_restore_into_empty). Qed.
+Print Assumptions C23_wallet_restore_into_empty_partial.
+
+(* ... not into one that already holds coins: the stale coin survives *)
+Theorem C23_wallet_restore_into_nonempty_refuted :
+  deci (r_wallet_checkpoint default_payloads) wallet_old (enc (wallet_checkpoint default_payloads) wallet_new)
+    = Some ((9, ([(op1, coin_v0 100); (op2, coin_v0 500)], [])), []) /\
+  dec (wallet_checkpoint default_payloads) (enc (wallet_checkpoint default_payloads) wallet_new)
+    = Some (wallet_new, []) /\
+  ~ replaces (r_wallet_checkpoint default_payloads).
+Proof. exact wallet_merge_refuted. Qed.
+Print Assumptions C23_wallet_restore_into_nonempty_refuted.
+
+(* Non-vacuity of the new statements: a list with one arbiter of each kind and
+   a ProposalKeyFrame with a proposal, budgets, side-chain registrations are
+   well formed, round-trip, and the latter restores exactly into a receiver
+   that already holds data. *)
+Example C23_nonvacuous_checkpoints :
+  wf arbiters ex_arbiters /\ dec arbiters (enc arbiters ex_arbiters) = Some (ex_arbiters, []) /\
+  wf proposal_key_frame ex_proposal_key_frame /\
+  dec proposal_key_frame (enc proposal_key_frame ex_proposal_key_frame) = Some (ex_proposal_key_frame, []) /\
+  deci (r_assign proposal_key_frame) ex_proposal_key_frame (enc proposal_key_frame ex_proposal_key_frame)
+    = Some (ex_proposal_key_frame, []).
+Proof.
+  exact (conj ex_arbiters_wf (conj ex_arbiters_roundtrip (conj ex_proposal_key_frame_wf
+        (conj (proj1 ex_proposal_key_frame_roundtrip) ex_restore_into_builtin)))).
+Qed.
